@@ -3,7 +3,9 @@ package main
 import (
 	"bufio"
 	"bytes"
+	"context"
 	"fmt"
+	"io"
 	"os"
 	"os/exec"
 	"runtime"
@@ -11,9 +13,10 @@ import (
 	"strconv"
 	"strings"
 
-	neatmath "github.com/yaricom/goNEAT/v4/neat/math"
+	"github.com/yaricom/goNEAT/v4/experiment"
 	"github.com/yaricom/goNEAT/v4/neat"
 	"github.com/yaricom/goNEAT/v4/neat/genetics"
+	neatmath "github.com/yaricom/goNEAT/v4/neat/math"
 	"github.com/yaricom/goNEAT/v4/neat/network"
 	"github.com/yaricom/goNEAT/v4/neat/vrand"
 )
@@ -95,10 +98,14 @@ func c17SeededList(c *Ctx) []c17Seeded {
 	var out []c17Seeded
 	for i := 0; i < n; i++ {
 		seed := []int64{0, 1, 42, c.Seed}[i%4] + int64(i/4)*1000003
-		out = append(out, c17Seeded{Seed: seed, Cfg: (i * 5) % quickCfgRows, Start: starts[i%len(starts)], Fit: []int{5, 2, 6, 4}[i%4], Epochs: 10})
+		out = append(out, c17Seeded{Seed: seed, Cfg: (i * 5) % quickCfgRows, Start: starts[i%len(starts)], Fit: []int{5, 2, 1, 6, 0, 4}[i%6], Epochs: 10})
 	}
 	return out
 }
+
+// c17Dumps: when set, the population is dumped (Write, WriteBySpecies) and verified between the
+// fitness assignment and every turnover - read-only calls that must not influence evolution.
+var c17Dumps bool
 
 // c17RunSeeded: real math/rand seeded with s.Seed; returns one fingerprint per population produced.
 func c17RunSeeded(s c17Seeded, keep bool) (hashes []uint64, keys []string, err error) {
@@ -144,6 +151,15 @@ func c17RunSeeded(s c17Seeded, keep bool) (hashes []uint64, keys []string, err e
 		for i, o := range pop.Organisms {
 			o.Fitness = fitnessOf(s.Fit, e, i, len(pop.Organisms), o)
 		}
+		if c17Dumps {
+			_ = pop.WriteBySpecies(io.Discard)
+			_ = pop.Write(io.Discard)
+			_, _ = pop.Verify()
+			for _, sp := range pop.Species {
+				_ = sp.FindChampion()
+				_, _ = sp.ComputeMaxAndAvgFitness()
+			}
+		}
 		ex := &genetics.SequentialPopulationEpochExecutor{}
 		if err = ex.NextEpoch(ctx, e, pop); err != nil {
 			return hashes, keys, err
@@ -153,12 +169,63 @@ func c17RunSeeded(s c17Seeded, keep bool) (hashes []uint64, keys []string, err e
 	return hashes, keys, nil
 }
 
+// c17Evaluator records the fingerprint of every population it is handed and assigns fitness.
+type c17Evaluator struct {
+	fit    int
+	hashes []uint64
+}
+
+func (e *c17Evaluator) GenerationEvaluate(ctx context.Context, pop *genetics.Population, g *experiment.Generation) error {
+	e.hashes = append(e.hashes, popHash(pop))
+	for i, o := range pop.Organisms {
+		o.Fitness = fitnessOf(e.fit, g.Id+1, i, len(pop.Organisms), o)
+	}
+	g.Champion = pop.Organisms[0]
+	return nil
+}
+
+// c17RunExperiment: the whole Experiment.Execute on a zero-value experiment after seeding the global source.
+func c17RunExperiment(s c17Seeded) (hashes []uint64, err error) {
+	defer func() {
+		if r := recover(); r != nil {
+			err = fmt.Errorf("panic: %v", r)
+		}
+	}()
+	row := cfgRows[s.Cfg]
+	opts := row.Options()
+	c17Tweak(opts)
+	opts.NumRuns, opts.NumGenerations = 2, 4
+	start := seedByName("xor")
+	if s.Start == "multidisc" {
+		start = multiDiscSeed()
+	} else if s.Start == "evolved" || s.Start == "disc" {
+		start = seedByName(s.Start)
+	}
+	vrand.Seed(s.Seed)
+	ev := &c17Evaluator{fit: s.Fit}
+	exp := experiment.Experiment{Id: 0}
+	err = exp.Execute(opts.NeatContext(), start.Build(), ev, nil)
+	return ev.hashes, err
+}
+
 func hashesString(h []uint64) string {
 	var b strings.Builder
 	for _, v := range h {
 		fmt.Fprintf(&b, "%016x ", v)
 	}
 	return strings.TrimSpace(b.String())
+}
+
+func firstHashDiff(a, b []uint64) int {
+	for i := 0; i < len(a) && i < len(b); i++ {
+		if a[i] != b[i] {
+			return i
+		}
+	}
+	if len(a) < len(b) {
+		return len(a)
+	}
+	return len(b)
 }
 
 func firstDiff(a, b []string) string {
@@ -277,6 +344,15 @@ func runC17(c *Ctx) {
 					&Replay{Scenario: "seeded", Params: params, Clause: "in-process rerun differs"})
 				continue
 			}
+			// the same run with read-only dumps of the population before every turnover
+			c17Dumps = true
+			h3, k3, err3 := c17RunSeeded(s, true)
+			c17Dumps = false
+			runs++
+			if fmt.Sprint(err1) != fmt.Sprint(err3) || hashesString(h1) != hashesString(h3) {
+				c.ViolateOrd("C17/dump-changes-evolution", int64(i), fmt.Sprintf("[%s] writing / verifying the population (read-only calls) between evaluation and turnover changes the outcome: %s", s, firstDiff(k1, k3)),
+					&Replay{Scenario: "seeded", Params: params, Clause: "dump changes evolution"})
+			}
 			want := fmt.Sprintf("%s %v", hashesString(h1), err1)
 			if got, ok := childSeeded[i]; ok && got != want {
 				c.ViolateOrd("C17/seeded-second-process-differs", int64(i), fmt.Sprintf("[%s] the run in a second process (other GOGC/GOMAXPROCS) differs from the run in this process", s),
@@ -284,6 +360,15 @@ func runC17(c *Ctx) {
 			}
 			for _, h := range h1 {
 				c.Distinct(h)
+			}
+			// the same through Experiment.Execute (2 trials x 4 generations) on a zero-value experiment
+			e1, xerr1 := c17RunExperiment(s)
+			c17Garbage()
+			e2, xerr2 := c17RunExperiment(s)
+			runs += 2
+			if fmt.Sprint(xerr1) != fmt.Sprint(xerr2) || hashesString(e1) != hashesString(e2) {
+				c.ViolateOrd("C17/experiment-rerun-differs", int64(i), fmt.Sprintf("[%s] two Experiment.Execute runs in one process with the global source seeded identically hand different populations to the evaluator (first difference at evaluation #%d)", s, firstHashDiff(e1, e2)),
+					&Replay{Scenario: "seeded", Params: params, Clause: "experiment rerun differs"})
 			}
 		}
 		c.AddEval(runs)
@@ -395,7 +480,7 @@ func runC17(c *Ctx) {
 		c.Sample(map[string]interface{}{"seeded_run": seeded[1].String(), "compared": "this process twice (different GOGC / GOMAXPROCS, unrelated evolution in between) and a second process"})
 	}
 	c.States = int64(len(c.distinct))
-	c.Rule = "(i) explorer mode: for every scenario (start genome incl. one with five disconnected sensors and random populations x configuration row x landscape x base policy; four node activators so that the activation roulette is drawn) EVERY execution within 1 deviation of the base policy is run twice in one process (second pass after garbage, a forced GC and an unrelated scenario) and the base executions a third time in a fresh process; the draw trace (kind and bound of every draw) and the bit-exact fingerprint of the population after construction and after each of 6-8 epochs must agree. (ii) real math/rand: seeds {0,1,42,VERIF_SEED}+k*1000003 x start genome x configuration x 10 epochs, run twice in-process (unrelated evolution in between, different GOGC and GOMAXPROCS) and once in a second process. states = distinct population fingerprints, transitions = populations produced"
+	c.Rule = "(i) explorer mode: for every scenario (start genome incl. one with five disconnected sensors and random populations x configuration row x landscape x base policy; four node activators so that the activation roulette is drawn) EVERY execution within 1 deviation of the base policy is run twice in one process (second pass after garbage, a forced GC and an unrelated scenario) and the base executions a third time in a fresh process; the draw trace (kind and bound of every draw) and the bit-exact fingerprint of the population after construction and after each of 6-8 epochs must agree. (ii) real math/rand: seeds {0,1,42,VERIF_SEED}+k*1000003 x start genome x configuration x 10 epochs, run twice in-process (unrelated evolution in between, different GOGC and GOMAXPROCS), once with read-only dumps / verification of the population before every turnover, once in a second process, and twice through Experiment.Execute on a zero-value experiment. states = distinct population fingerprints, transitions = populations produced"
 	c.Assume("Go's per-loop randomisation of map iteration cannot be owned; dependence on it is caught because every execution is repeated (>= 2-3 times)")
 	c.Assume("wall-clock dependence is caught by the repetition as well (the neat packages do not import time)")
 }
